@@ -25,6 +25,10 @@ CHECKS = {
   "runtime monitoring: hostile-input catalogue and byte fuzz executed in child processes, crash and damage monitor over before/after views",
   "A hostile bare repository serves mutated bug and identity histories (catalogue of ~250 structural mutation kinds at every position, per-field type confusion discovered from the live operation encoding, seeded byte fuzz); each case does a real fetch+merge (entity API and cache API) or a local read in a child process; the monitor checks process survival, the reported status against the case's class and that every local ref and entity is unchanged.",
   "must-reject/may-accept classification is the harness's reading of the property; thorough children run under the race detector (reports are diagnostics only)."),
+ "C11": ("exploration",
+  "runtime monitoring: differential oracle live cache vs cache rebuilt from a copy of the git data, after every action of generated two-user sessions",
+  "Two users on two repositories sharing a remote run targeted and seeded random sessions of cache-level actions (new, every edit kind, staged edits under cache size 1..3, push, pull incl. fast-forward/diverged/identity update, remove, close/reopen); after every action on a quiescent side everything the live cache serves (id lists, excerpts, resolved snapshots, identities, valid labels, 25 queries, a full-text query per planted marker, metadata lookups) is compared with a cache built from scratch on a copy; edits after a pull must descend from the merged head.",
+  "Held on the executed sessions; sessions run in child processes (crash and deadlock are classified from the child's death / goroutine dump); thorough children run under the race detector (diagnostic)."),
  "C17": ("exploration",
   "runtime monitoring: before/after repository snapshots around every generated GraphQL mutation / upload request, mutation list from schema introspection",
   "An in-process handler assembled like the web UI serves a real repository; every mutation field found by introspection is sent with generated valid and invalid arguments with and without an authenticated user; the monitor compares refs, object files, stored operations (independent reader) and cache answers before and after, and the response with the modelled effect.",
